@@ -610,7 +610,9 @@ fn line_comment_forms(t: &str) -> Vec<String> {
     let mut v = vec![trimmed.to_string()];
     for p in ["///", "//"] {
         if let Some(rest) = trimmed.strip_prefix(p) {
-            if rest.chars().next().is_some_and(|c| !c.is_ascii_whitespace()) {
+            // (a separator line - ten or more equal characters, no letter or digit - is left as it is)
+            let is_sep = rest.chars().count() >= 10 && rest.chars().next().is_some_and(|c| c.is_ascii() && !c.is_ascii_alphanumeric()) && rest.chars().all(|c| Some(c) == rest.chars().next());
+            if rest.chars().next().is_some_and(|c| !c.is_ascii_whitespace()) && !is_sep {
                 v.push(format!("{p} {rest}"));
             }
             break;
